@@ -186,7 +186,7 @@ def make_tpe(n, seed):
     return DelayedTPE(n, seed)
 
 
-SCHEDULES = ["vec", "vec-ro", "vec-list", "scalar", "scalar-0d", "scalar-np64", "scalar-ld", "reversed", "permuted", "threads", "fullapi", "executor", "tpe", "int1", "int2"]
+SCHEDULES = ["vec", "vec-ro", "vec-list", "scalar", "scalar-0d", "scalar-np64", "scalar-ld", "reversed", "permuted", "threads", "fullapi", "executor", "tpe", "int1", "int2", "mpobj"]
 
 
 def one(cfg, schedule, seed):
@@ -209,12 +209,17 @@ def one(cfg, schedule, seed):
         c["mode"] = "blobs" if blobs else "scalar"
         if schedule.startswith("scalar-"):
             c["ret_type"] = schedule.split("-")[1]      # the pointwise value as 0-d array / np.float64 / np.longdouble
-        pool = {"scalar": None, "scalar-0d": None, "scalar-np64": None, "scalar-ld": None, "reversed": ReversedPool(), "permuted": PermutedPool(seed + 5), "threads": ThreadedPool(4, seed + 7), "fullapi": FullAPIPool(3, seed + 9), "executor": ExecutorPool(4, seed + 11), "tpe": None,
+        pool = {"scalar": None, "scalar-0d": None, "scalar-np64": None, "scalar-ld": None, "reversed": ReversedPool(), "permuted": PermutedPool(seed + 5), "threads": ThreadedPool(4, seed + 7), "fullapi": FullAPIPool(3, seed + 9), "executor": ExecutorPool(4, seed + 11), "tpe": None, "mpobj": None,
                 "int1": 1, "int2": 2}[schedule]
     if schedule == "tpe":
         pool = make_tpe(4, seed + 13)
     c["pool"] = pool
     idblob.SHARED = mp.Value("q", 0)
+    if schedule == "mpobj":
+        # a worker-process pool OBJECT created by the caller (the documented way of using multiprocess / schwimmbad pools);
+        # created after the shared counter so that the forked workers inherit it
+        import multiprocess
+        pool = c["pool"] = multiprocess.Pool(2)
     np.random.seed(seed)
     try:
         s, t, like, pt = runs.build(c)
@@ -227,6 +232,9 @@ def one(cfg, schedule, seed):
     finally:
         if isinstance(pool, (ThreadedPool, ExecutorPool)) or schedule == "tpe":
             pool.close()
+        if schedule == "mpobj":
+            pool.terminate()
+            pool.join()
     H = runs.history(s)
     core = {k: H[k] for k in ("u", "x", "logl", "beta", "logz", "ess", "iter", "steps")}
     x, w, l = s.posterior(trim_importance_weights=False)
@@ -235,7 +243,7 @@ def one(cfg, schedule, seed):
     if isinstance(pool, ThreadedPool) or schedule == "tpe":
         comp = pool.completion
         reorder = int(sum(1 for a, b in zip(comp, comp[1:]) if b < a))
-    return dict(dtypes=(sorted(like.keep_dtypes) if not isinstance(pool, int) or pool == 1 else None),
+    return dict(dtypes=(sorted(like.keep_dtypes) if (not isinstance(pool, int) or pool == 1) and schedule != "mpobj" else None),
                 dg=digest(core), post=digest(x, w, l), logz=float(s.evidence()[0]), calls=int(s.state.get_current("calls")),
                 calls_hist=[int(v) for v in H["calls"]], seen=seen, n_iter=len(H["beta"]), reorder=reorder)
 
@@ -312,7 +320,7 @@ def run():
     ck.require_events(*need)
     return ck.finish(
         rule="configurations x seeds x evaluation schedules {vectorised (row-by-row identical function), scalar, reversed-order pool object, "
-             "randomly permuted pool object (own RNG), ThreadPool(4) with injected per-point delays, integer pools 1 and 2}; histories, posterior "
+             "randomly permuted pool object (own RNG), ThreadPool(4) with injected per-point delays, executor-like object, genuine concurrent.futures.ThreadPoolExecutor, integer pools 1 and 2, caller-made multiprocess.Pool object}; histories, posterior "
              "and evidence compared by sha256 across schedules; 'calls' compared with a cross-process evaluation counter; non-trivial = more than 2 iterations",
         assumptions=["blobs on/off are compared within their own group (blob ids depend on evaluation order by construction)"],
     )
